@@ -154,34 +154,36 @@ Proof.
 Qed.
 
 Theorem multistream_route_link (c : case) :
-  k_route c = 1 -> gen_ok c = true -> model_ok c = true ->
-  let exp := spec_sync bname zlist_eqb ids [] (k_genome c) [] (k_groups c) in
-  all_ok (meets zll_eqb exp) (k_mslist c) = true /\ all_ok (meets zll_eqb exp) (k_mslist_tab c) = true
-  /\ (exp <> None -> spec_ok c = true).
+  k_route c = 1 -> gen_ok c = true -> k_genome c <> [] -> model_ok c = true -> spec_ok c = true.
 Proof.
-  intros Hr Hg Hm exp. destruct (gen_ok_facts c Hg) as [Ho [HD [Hch [Hc HR]]]].
+  intros Hr Hg H0 Hm. destruct (gen_ok_facts c Hg) as [Ho [HD [Hch [Hc HR]]]].
   unfold spec_ok, model_ok in *. rewrite Hg, Hr in *. simpl in *.
   destruct (table_is_one_chunk_stream (k_genome c) (k_chunks c) Hch Hc) as [_ Htab]. rewrite Htab in Hm.
   unfold multistream_trace in Hm.
-  pose proof (head_multistream_end_to_end (k_genome c) (k_chunks c) Ho Hch Hc) as H. simpl in H. rewrite HR in H. fold exp in H.
+  pose proof (head_multistream_end_to_end (k_genome c) (k_chunks c) Ho H0 Hch Hc) as H. simpl in H. rewrite HR in H.
+  set (exp := spec_sync bname zlist_eqb ids [] (k_genome c) [] (k_groups c)) in *.
+  set (t := synched_head (k_genome c) (grouped bname zlist_eqb (k_chunks c))) in *.
   rewrite !andb_true_iff in Hm. destruct Hm as [[[[[[[[[M1 M2] M3] _] _] _] _] T1] T2] T3].
-  assert (HL : match exp with Some a => pull_all (synched_head (k_genome c) (grouped bname zlist_eqb (k_chunks c))) = Done a
-                         | None => exists cd, pull_all (synched_head (k_genome c) (grouped bname zlist_eqb (k_chunks c))) = Err cd end).
-  { destruct exp; [apply H|exact H]. }
-  assert (L : all_ok (meets zll_eqb exp) (k_mslist c) = true) by (eapply link_all; [exact HL|exact M1]).
-  assert (LT : all_ok (meets zll_eqb exp) (k_mslist_tab c) = true) by (eapply link_all; [exact HL|exact T1]).
-  split; [exact L|]. split; [exact LT|]. intros Hex. unfold exp in *. clear exp.
-  destruct (spec_sync bname zlist_eqb ids [] (k_genome c) [] (k_groups c)) as [a|] eqn:Ee; [|congruence]. destruct H as [H1 _].
-  assert (Hz : pull_n (length (k_genome c)) (synched_head (k_genome c) (grouped bname zlist_eqb (k_chunks c))) = Done a).
-  { unfold synched_head, SYNC_AHEAD. rewrite (grouped_chunk_invariant bname zlist_eqb zlist_eqb_eq _ Hch Hc), HR.
-    apply (multistream_npull_good bname zlist_eqb zlist_eqb_eq ids [] (k_genome c) (k_groups c) a Ho HD Ee). }
+  assert (HL : match exp with Some a => pull_all t = Done a | None => exists cd, pull_all t = Err cd end).
+  { destruct exp; apply H. }
+  assert (HZ : match exp with Some a => pull_n (length (k_genome c)) t = Done a
+                         | None => exists cd, pull_n (length (k_genome c)) t = Err cd end).
+  { destruct exp as [a|] eqn:Ee.
+    - destruct H as [_ [H2 _]]. rewrite H2. rewrite <- (spec_sync_length bname zlist_eqb ids [] _ _ _ _ Ee). rewrite firstn_all. reflexivity.
+    - destruct H as [_ [H2 _]]. apply H2. lia. }
+  assert (HC : match option_map (fun a => (len (k_genome c), len (concat a))) exp with
+               | Some v => res_map (fun a => (len (k_genome c), len (concat a))) (pull_n (length (k_genome c)) t) = Done v
+               | None => exists cd, res_map (fun a => (len (k_genome c), len (concat a))) (pull_n (length (k_genome c)) t) = Err cd end).
+  { destruct exp as [a|]; simpl.
+    - rewrite HZ. reflexivity.
+    - destruct HZ as [cd HZ]. rewrite HZ. exists cd. reflexivity. }
   rewrite !andb_true_iff. repeat split.
-  - exact L.
-  - eapply (link_all zll_eqb _ (Some a)); [|exact M2]. exact Hz.
-  - eapply (link_all zz_eqb _ (Some (len (k_genome c), len (concat a)))); [|exact M3]. simpl. rewrite Hz. reflexivity.
-  - exact LT.
-  - eapply (link_all zll_eqb _ (Some a)); [|exact T2]. exact Hz.
-  - eapply (link_all zz_eqb _ (Some (len (k_genome c), len (concat a)))); [|exact T3]. simpl. rewrite Hz. reflexivity.
+  - eapply link_all; [exact HL|exact M1].
+  - eapply link_all; [exact HZ|exact M2].
+  - eapply link_all; [exact HC|exact M3].
+  - eapply link_all; [exact HL|exact T1].
+  - eapply link_all; [exact HZ|exact T2].
+  - eapply link_all; [exact HC|exact T3].
 Qed.
 
 (* ---------- left_join route ---------- *)
